@@ -73,20 +73,25 @@ Definition has_header (h : list (ustr * ustr)) (lk : string) : bool :=
   match hget h (str lk) with Some _ => true | None => false end.
 
 (* Requester.build for hostname [host] (ASCII, no ':'), port [port] *)
-Definition build (host : ustr) (port : N) (r : request) : bytes :=
+Definition target (r : request) : ustr :=
   let query := enc_pairs (q_qargs r) in
-  let target := quote_path (q_path r) ++ match query with [] => [] | _ => 63 :: query end in
-  let start := q_method r ++ 32 :: target ++ 32 :: str "HTTP/1.1" in
+  quote_path (q_path r) ++ match query with [] => [] | _ => 63 :: query end.
+
+Definition start_line (r : request) : bytes := q_method r ++ 32 :: target r ++ 32 :: str "HTTP/1.1".
+
+(* the header fields in the order they are sent *)
+Definition all_headers (host : ustr) (port : N) (r : request) : list (ustr * ustr) :=
   let body := body_bytes r in
   let hs := final_headers r in
-  let lines :=
-    [start]
-    ++ (if has_header (q_headers r) "host" then [] else [pack_header (str "Host") (host ++ 58 :: dec_str port)])
-    ++ (if has_header (q_headers r) "accept-encoding" then [] else [pack_header (str "Accept-Encoding") (str "identity")])
-    ++ (if negb (is_nil body) && negb (has_header hs "content-length")
-        then [pack_header (str "Content-Length") (dec_str (blen body))] else [])
-    ++ map (fun nv => pack_header (fst nv) (snd nv)) hs in
-  flat_map (fun l => l ++ CRLFb) lines ++ CRLFb ++ body.
+  (if has_header (q_headers r) "host" then [] else [(str "Host", host ++ 58 :: dec_str port)])
+  ++ (if has_header (q_headers r) "accept-encoding" then [] else [(str "Accept-Encoding", str "identity")])
+  ++ (if negb (is_nil body) && negb (has_header hs "content-length")
+      then [(str "Content-Length", dec_str (blen body))] else [])
+  ++ hs.
+
+Definition build (host : ustr) (port : N) (r : request) : bytes :=
+  let lines := start_line r :: map (fun nv => pack_header (fst nv) (snd nv)) (all_headers host port r) in
+  flat_map (fun l => l ++ CRLFb) lines ++ CRLFb ++ body_bytes r.
 
 (* ---------- the server side ---------- *)
 Record parsed := { p_method : ustr; p_v10 : bool; p_path : ustr; p_query : ustr;
@@ -237,7 +242,12 @@ Definition wf_request (r : request) : bool :=
      | Form f => forallb (fun kv => text_ok (fst kv) && text_ok (snd kv)) f && distinct_exact f
                  && forallb (fun kv => negb (is_nil (fst kv)) || negb (is_nil (snd kv))) f
      end
-  && forallb (fun kv => negb (is_nil (fst kv)) || negb (is_nil (snd kv))) (q_qargs r).
+  && forallb (fun kv => negb (is_nil (fst kv)) || negb (is_nil (snd kv))) (q_qargs r)
+  (* the limits of hio's parser: line length, number of header fields (3 may be added by build) *)
+  && (blen (start_line r) <=? MAXL)
+  && forallb (fun nv => blen (pack_header (fst nv) (snd nv)) <=? MAXL) (final_headers r)
+  && (N.of_nat (List.length (final_headers r)) + 3 <=? MAXH)
+  && (blen (body_bytes r) <? 10 ^ 40).
 
 (* where [build] above is a faithful model of Requester.build (it does not model the merging of a
    query / scheme / host given inside the path argument, nor text that cannot be encoded) *)
